@@ -48,6 +48,9 @@ pub struct FnDirective {
     pub tryinto_as: Option<String>,
     /// R16 for path calls (opt-in, `//@ call-as <callee path> <fn>`): `<callee path>(args)` -> `<fn>(args)`; same justification
     pub call_as: Vec<(String, String)>,
+    /// R8 (opt-in, `//@ allow-unsafe`): `unsafe { B }` -> `{ B }`, and `use core::arch::..::X;` items directly inside such a block are
+    /// deleted so that the intrinsic name `X` resolves to the template's shim model of it (the unit's stated modelling assumption)
+    pub allow_unsafe: bool,
 }
 
 #[derive(Clone, Debug)]
@@ -62,6 +65,11 @@ pub struct ItemDir {
     /// extract both cfg variants of a function; combine with `//@ rename`)
     pub extra_cfg: Vec<String>,
     pub fnd: Option<FnDirective>,
+    /// `//@item <file> :: static X` followed by `//@|  ensures ...` lines: R12 applied to a static (`exec static X: T ensures .. { e }`)
+    pub spec: Vec<String>,
+    /// `//@item <file> :: static X fold-args=<ty>`: R5 applied to the literal-only arguments of the initialiser call
+    /// (`f(67108845 << 1, ..)` -> `f(134217690, ..)`, each with a `by(compute)` side obligation typed <ty>)
+    pub fold_args: Option<String>,
 }
 
 #[derive(Clone, Debug)]
@@ -176,6 +184,7 @@ fn parse_fn_block(name_line: &str, lines: &[(bool, String)]) -> FnDirective {
             "refvars" => curfn!().refvars = rest.split_whitespace().map(|x| x.to_string()).collect(),
             "allow-macro" => curfn!().allow_macros = rest.split_whitespace().map(|x| x.to_string()).collect(),
             "external_body" => curfn!().external_body = true,
+            "allow-unsafe" => curfn!().allow_unsafe = true,
             "try-into-as" => curfn!().tryinto_as = Some(rest.to_string()),
             "call-as" => {
                 let mut it = rest.split_whitespace();
@@ -344,6 +353,15 @@ pub fn parse_template(tpl: &str) -> Unit {
                     let n = rest.trim_end().len() - " make-pub".len();
                     rest.truncate(n);
                 }
+                let mut fold_args = None;
+                if let Some(p) = rest.find(" fold-args=") {
+                    let tail = rest[p + 11..].to_string();
+                    let ty = tail.split_whitespace().next().unwrap_or("").to_string();
+                    let after = tail[ty.len()..].to_string();
+                    rest.truncate(p);
+                    rest.push_str(&after);
+                    fold_args = Some(ty);
+                }
                 let mut extra_cfg = vec![];
                 if let Some(p) = rest.find(" cfg+(") {
                     let q = rest[p..].rfind(')').map(|q| p + q).unwrap_or_else(|| die("unterminated cfg+("));
@@ -370,7 +388,14 @@ pub fn parse_template(tpl: &str) -> Unit {
                     let nm = parts.last().unwrap()[3..].to_string();
                     fnd = Some(parse_fn_block(&nm, &blk));
                 }
-                unit.segments.push(Segment::Item(ItemDir { file: parts[0].clone(), path: parts[1..].to_vec(), nth, keep_derive: keep, make_pub, extra_cfg, fnd }));
+                let mut spec = vec![];
+                if parts.last().unwrap().starts_with("static ") {
+                    while i < lines.len() && lines[i].trim_start().starts_with("//@|") {
+                        spec.push(lines[i].trim_start()[4..].trim_end_matches('\n').to_string());
+                        i += 1;
+                    }
+                }
+                unit.segments.push(Segment::Item(ItemDir { file: parts[0].clone(), path: parts[1..].to_vec(), nth, keep_derive: keep, make_pub, extra_cfg, fnd, spec, fold_args }));
             }
             "impl" => {
                 unit.segments.push(Segment::Text(std::mem::take(&mut text)));
